@@ -307,7 +307,7 @@ func (tree *Tree[T]) URL(buf *errwrap.StringBuilder, pattern string, ps map[stri
 	}
 
 	n := tree.Find(pattern)
-	if n == nil {
+	if n == nil || n.size() == 0 { // 没有处理函数的节点仅仅是路由树的中间节点或是已经被删除的路由项
 		return fmt.Errorf("%s 并不是一条有效的注册路由项", pattern)
 	}
 
